@@ -647,7 +647,13 @@ class Tally(StatisticsInterface):
             # not variance ** 1.5: float ** raises OverflowError where a 
             # product of floats overflows to inf
             var: float = self.variance()
-            skew_biased = (self._m3 / n) / (var * math.sqrt(var))
+            den: float = var * math.sqrt(var)
+            if den > 0:
+                skew_biased = (self._m3 / n) / den
+            else:
+                # the product underflows to zero for a tiny variance
+                sd: float = math.sqrt(var)
+                skew_biased = (self._m3 / n) / sd / sd / sd
             if biased:
                 return skew_biased
             elif n > 2:
@@ -698,10 +704,13 @@ class Tally(StatisticsInterface):
         if biased:
             if n > 2:
                 d2 = (self._m2 / n)
-                return (self._m4 / n) / d2 / d2
+                # (the variance itself can underflow to zero)
+                if d2 > 0:
+                    return (self._m4 / n) / d2 / d2
         elif n > 3:
             svar = self.variance(False)
-            return self._m4 / (n - 1) / svar / svar
+            if svar > 0:
+                return self._m4 / (n - 1) / svar / svar
         return math.nan
     
     def excess_kurtosis(self, biased: bool=True) -> float:
